@@ -86,6 +86,18 @@ func (c *Context) GetMembers() ([]vivid.ClusterMemberInfo, error) {
 // 内部会临时启动一个 Actor 监听 ClusterLeaveCompletedEvent，收到事件后解除阻塞；若超时则直接返回，不阻塞 Stop 流程。只执行一次，幂等。
 // 若未启用集群或 clusterRef 为空则直接返回。
 func (c *Context) Leave() {
+	c.leave(nil)
+}
+
+// LeaveWithin 与 Leave 相同，但最多等待 timeout：节点 Actor 忙于其它处理（例如仍在向不可达的种子发起加入请求）时，
+// 「已退出」事件可能迟迟不到，Stop 流程不得因此超出自身的超时。
+func (c *Context) LeaveWithin(timeout time.Duration) {
+	timer := time.NewTimer(timeout)
+	defer timer.Stop()
+	c.leave(timer.C)
+}
+
+func (c *Context) leave(expired <-chan time.Time) {
 	if c == nil || c.clusterRef == nil || c.system == nil {
 		return
 	}
@@ -104,7 +116,10 @@ func (c *Context) Leave() {
 		}))
 	}
 	c.leaveLock.Unlock()
-	<-c.leaveWait
+	select {
+	case <-c.leaveWait:
+	case <-expired:
+	}
 }
 
 // getView 向 NodeActor 请求当前视图，用于 GetMembers、InQuorum。
